@@ -104,7 +104,14 @@ def make_pairs(rnd, n):
         if len(A) < 2 or A == B:
             continue
         pairs.append(("sub:" + ",".join(A), "sub:" + ",".join(B), streams.typeset_from_names(A), streams.typeset_from_names(B), set(A)))
-    return pairs[:3] + alg_pairs(rnd, max(2, n // 3)) + pairs[3:]
+    # the complete typeset without one leaf (sub-tree): what `CompleteSet() - T` users build
+    allnames = sorted(names["CompleteSet"])
+    leafs = [["URL"], ["Path", "File", "Image"], ["Date"], ["Count"]] + ([["UUID"], ["IPAddress"], ["EmailAddress"], ["Geometry"], ["Time"], ["Ordinal"], ["Image"], ["File", "Image"]] if n > 20 else [])
+    minus = []
+    for rem in leafs:
+        A = [t for t in allnames if t not in rem]
+        minus.append(("sub:" + ",".join(A), "CompleteSet", streams.typeset_from_names(A), sh["CompleteSet"], set(A)))
+    return pairs[:3] + minus + alg_pairs(rnd, max(2, n // 3)) + pairs[3:]
 
 
 def replay(path):
